@@ -94,6 +94,14 @@ def corner_models():
                 mk([oh.make_node("Softmax", ["x"], ["s"], axis=1),
                     oh.make_node("Scaler", ["s"], ["y"], domain="ai.onnx.ml", scale=[2.0], offset=[0.5])],
                    [vi("x", (2, 2, 2))], [vi("y", (2, 2, 2))], opset=11, extra_imports=[oh.make_operatorsetid("ai.onnx.ml", 1)]), True))
+    # an older default opset next to an import of ANOTHER domain whose version number is at or above the surrounding model's default
+    # opset (versions of different domains are unrelated numbers): the default-domain part is written for 11 and must still be converted
+    out.append(("opset11-squeeze-with-unused-domain-import-v14",
+                mk([oh.make_node("Squeeze", ["x"], ["y"], axes=[0])], [vi("x", (1, 2))], [vi("y", (2,))], opset=11,
+                   extra_imports=[oh.make_operatorsetid("com.example.ext", 14)]), True))
+    out.append(("opset11-softmax-with-unused-domain-import-v30",
+                mk([oh.make_node("Softmax", ["x"], ["y"])], [vi("x", (2, 2, 2))], [vi("y", (2, 2, 2))], opset=11,
+                   extra_imports=[oh.make_operatorsetid("com.example.ext", 30)]), True))
     # statically EMPTY dimensions in the declared types (0 is a dimension like any other: it is neither unknown nor a wildcard)
     out.append(("zero-dim-output", mk([oh.make_node("Slice", ["x", "starts", "ends"], ["y"])], [vi("x", (2, 3))], [vi("y", (0, 3))],
                                       [oh.make_tensor("starts", TP.INT64, (1,), [0]), oh.make_tensor("ends", TP.INT64, (1,), [0])]), True))
@@ -399,6 +407,12 @@ def compose(rng, m, mode):
         outs.update({f"o1_{k}": v for k, v in r1.items()})
         compose.pre = (dict(args), {f"o_{k}": v for k, v in r1.items()}, False)
         mode = "twice"
+    elif mode == "renamed_rebuild":
+        # the SAME application built twice in one process, first under other argument and output names: nothing the first build derived
+        # from those names (renamed block, reserved names) may survive into the second
+        outs = {f"o_{k}": v for k, v in r1.items()}
+        compose.pre = ({f"p_{k}": v for k, v in args.items()}, {f"q_{k}": v for k, v in r1.items()}, False)
+        mode = "once"
     elif mode == "in_if":
         cond = B.argument(B.Tensor(np.bool_, ()))
         args["__cond"] = cond
@@ -485,7 +499,7 @@ def run(run: Run) -> int:
     ehist = collections.Counter()
     reps = 2 if quick else 8
     for tag, m, runnable in models:
-        for mode in ("once", "twice", "in_if", "chained", "rebuilt"):
+        for mode in ("once", "twice", "in_if", "chained", "rebuilt", "renamed_rebuild"):
             for _ in range(1 if tag == "spox-built" else reps if quick else reps):
                 before = m.SerializeToString(deterministic=True)
                 try:
